@@ -68,6 +68,13 @@ U_C02_Pos ==
               al \in {2, 4}, sh \in {0, 2}}
     \cup {V1(BitFields(<<4, 4>>) \o <<U1("z")>>, "full", TRUE), V1(BitFields(<<3, 10, 3>>), "full", TRUE)}
 
+\* pack side of C03 (every-change subset): fixed runs, a descriptor on a vectorised field, nested packets
+U_C03V == {V1(<<IntF("a", n, sg, e), IntF("b", 2, FALSE, "little"), DataF("d", SzConst(2)), U1("z")>>, "full", FALSE) :
+              n \in {1, 2, 3}, sg \in BOOLEAN, e \in {"default", "little"}}
+          \cup {V1(<<WithDesc(U1("n"), [kind |-> "autolen", of |-> "d"]), IntF("m", 2, FALSE, "default"), DataF("d", SzField("n"))>>, "full", FALSE),
+                VDecl([C0 |-> Class([DefaultOpts EXCEPT !.endian = "little"], <<IntF("a", 2, FALSE, "default"), RefF("s", "C1"), BitsF("h", 4), BitsF("l", 12)>>),
+                       C1 |-> Class(DefaultOpts, <<IntF("x", 2, FALSE, "default"), DataF("d", SzMarker(<<0>>, FALSE, TRUE))>>)], "full", 1, FALSE)}
+
 \* -------------------------------------------------------------------- C07 (pack side)
 U_C07V == {V1(BitFields(ws), "full", TRUE) : ws \in {<<4, 4>>, <<3, 5>>, <<1, 7>>, <<1, 6, 1>>, <<8>>}}
           \cup {V1(BitFields(ws), "full", FALSE) : ws \in {<<12, 4>>, <<4, 12>>, <<1, 22, 1>>, <<12, 12>>, <<5, 6, 5>>}}
